@@ -2,7 +2,7 @@ import os, sys, json, hashlib, subprocess, time, fcntl, shutil, re, glob, array,
 
 VERIF = os.path.dirname(os.path.dirname(os.path.abspath(__file__)))
 REPO = os.environ.get('VERIF_REPO', '/repo')          # only the self-test overrides this
-BUILD = os.path.join(VERIF, 'build')
+BUILD = os.environ.get('VERIF_BUILD_DIR', os.path.join(VERIF, 'build'))   # only the self-test redirects this (scratch trees get a scratch cache)
 HARNESS = os.path.join(VERIF, 'harness')
 NCPU = os.cpu_count() or 4
 
@@ -120,7 +120,9 @@ class Builder:
             ds = [os.path.join(BUILD, d) for d in os.listdir(BUILD) if os.path.isdir(os.path.join(BUILD, d))]
         except OSError: return
         ds.sort(key=lambda d: os.path.getmtime(d), reverse=True)
+        now = time.time()
         for d in ds[keep:]:
+            if now - os.path.getmtime(d) < 3 * 3600: continue      # may belong to a check that is still running (concurrent runs share the cache)
             shutil.rmtree(d, ignore_errors=True)
 
 
@@ -165,7 +167,7 @@ def confirm_replay(binp, replay_path, kind, unit, times=3):
     """Re-run a failing case in fresh isolated processes; it counts only if it fails every time."""
     n = 0
     for _ in range(times):
-        rc, so, se, _ = run_proc([binp, '--replay', replay_path, '--isolate', '--cpu', str(unit.get('cpu', 20))] + unit.get('args', []), 300)
+        rc, so, se, _ = run_proc([binp, '--replay', replay_path, '--isolate', '--cpu', str(unit.get('cpu', 10))] + unit.get('args', []), 300)
         if rc == 1 and 'REPLAY-FAIL' in so: n += 1
         elif rc not in (0, 1): n += 1      # died even in isolated replay (should not happen) -> still a failure
     return n == times
@@ -241,7 +243,7 @@ def check_property(pid, tier, seed, replay_only=None):
             log('bad replay file %s: %s' % (rf, e)); return 2
         u = unit_by_name.get(body.get('unit'))
         if u is None: log('replay file %s names unknown unit %s' % (rf, body.get('unit'))); continue
-        rc, so, se, _ = run_proc([bins[u['name']], '--replay', rf, '--isolate', '--tier', tier, '--cpu', str(u.get('cpu', 20))] + u.get('args', []), 600)
+        rc, so, se, _ = run_proc([bins[u['name']], '--replay', rf, '--isolate', '--tier', tier, '--cpu', str(u.get('cpu', 10))] + u.get('args', []), 600)
         replayed += 1
         failed = (rc == 1 and 'REPLAY-FAIL' in so) or rc not in (0, 1)
         exp = body.get('expect', 'pass')
@@ -265,7 +267,7 @@ def check_property(pid, tier, seed, replay_only=None):
         shards = cfg.get('shards', 1)
         for sh in range(shards):
             out = os.path.join(workdir, '%s.%d.json' % (u['name'], sh)); crumb = out + '.crumb'
-            cmd = [bins[u['name']], '--seed', str(seed), '--tier', tier, '--cases', str(cfg.get('cases', 1000)), '--shard', '%d/%d' % (sh, shards), '--out', out, '--crumb', crumb, '--cpu', str(u.get('cpu', 20))]
+            cmd = [bins[u['name']], '--seed', str(seed), '--tier', tier, '--cases', str(cfg.get('cases', 1000)), '--shard', '%d/%d' % (sh, shards), '--out', out, '--crumb', crumb, '--cpu', str(u.get('cpu', 10))]
             if kf_ids: cmd += ['--kf', ','.join(kf_ids)]
             if u.get('isolate'): cmd += ['--isolate']
             cmd += u.get('args', []) + cfg.get('args', [])
@@ -302,7 +304,7 @@ def check_property(pid, tier, seed, replay_only=None):
                 continue          # another shard already delivered a dying case of this property function
             crashed_props.add(ckey)
             if cj and 'gen_seed' in cj:
-                rc2, so2, se2, _ = run_proc([bins[u['name']], '--regen', '%s:%d:%d' % (cj['prop'], cj['gen_seed'], cj['size']), '--isolate', '--crumb', crumb + '.regen', '--cpu', str(u.get('cpu', 20))] + u.get('args', []), 600)
+                rc2, so2, se2, _ = run_proc([bins[u['name']], '--regen', '%s:%d:%d' % (cj['prop'], cj['gen_seed'], cj['size']), '--isolate', '--crumb', crumb + '.regen', '--cpu', str(u.get('cpu', 10))] + u.get('args', []), 600)
                 try:
                     with open(crumb + '.regen', 'rb') as fr: cj2 = json.loads(fr.read().split(b'\0', 1)[0].decode(errors='replace'))
                     m = re.search(r'kind=(\S+)', so2)
@@ -318,7 +320,7 @@ def check_property(pid, tier, seed, replay_only=None):
                 if 'seq' in f:
                     tmp = os.path.join(workdir, 'crash-%s-%d.json' % (u['name'], sh))
                     with open(tmp, 'w') as fo: json.dump(dict(prop=f['prop'], seq=f['seq']), fo)
-                    rc3, so3, se3, _ = run_proc([bins[u['name']], '--replay', tmp, '--isolate', '--shrink', '--cpu', str(u.get('cpu', 20))] + u.get('args', []), 900)
+                    rc3, so3, se3, _ = run_proc([bins[u['name']], '--replay', tmp, '--isolate', '--shrink', '--cpu', str(u.get('cpu', 10))] + u.get('args', []), 900)
                     m = re.search(r'^SHRUNK (\{.*\})$', so3, re.M)
                     if m:
                         try:
